@@ -37,6 +37,15 @@ def evaluate(case, obs):
     if obs.hung:
         out.fail("ends_as_requested", "call_blocked_after_quiet", {"notes": obs.notes,
                                                                    "blocked": [s["step"] for s in obs.steps if "outcome" not in s]})
+    # a producer instance that could not even start: with retriable faults only, InitProducerId / FindCoordinator
+    # must be retried until they succeed (a replaced or fenced instance may legitimately fail)
+    for tag, err in obs.start_errors:
+        if "Unable to bootstrap" in err:
+            out.label("bootstrap_failed")       # start() does not retry the bootstrap by design; not a transactional matter
+        elif only_retriable:
+            out.fail("ends_as_requested", "start_failed_under_retriable_faults:" + err.split("(")[0], {"proc": tag, "error": err})
+        else:
+            out.label("start_failed")
     for s in obs.steps:
         if s.get("unexpected"):
             out.fail("ends_as_requested", "unexpected_exception:" + s["outcome"][1], {"step": s["step"], "outcome": s["outcome"]})
